@@ -52,9 +52,10 @@ def run(ctx) -> None:
         ctx.rule(rid, text)
     ctx.assume("a coroutine runs without interleaving between two suspension points")
     info = ctx.pkg.cls(PLACEHOLDER)
-    for m in ("_await_impl", "_get_attribute", "_instance_value", "__await__", "__init__"):
+    for m in ("__await__", "__init__"):
         if m not in info.methods:
             raise AnalysisError(f"{PLACEHOLDER}.{m} missing (anchor moved)")
+    ctx.tables["placeholder roles"] = {k: (v.qualname if hasattr(v, "qualname") else v) for k, v in roles(ctx, info).items()}
     r12_1(ctx, info)
     r12_2(ctx, info)
     r12_3(ctx)
@@ -81,6 +82,35 @@ def placeholder_fields(info) -> dict:
     return out
 
 
+def roles(ctx, info) -> dict:
+    """The private methods of the placeholder by what they do (their names are free):
+    ``impl`` — the coroutine ``__await__`` delegates to; ``slot_read`` — the method / property
+    reading ``instance.__dict__[name]``; plus the attribute names of ``placeholder_fields``."""
+    cached = info.__dict__.get("_asl_roles")
+    if cached is not None:
+        return cached
+    F = placeholder_fields(info)
+    out = dict(F)
+    aw = info.methods["__await__"]
+    for r in own_nodes(aw.node):
+        if isinstance(r, ast.Return) and isinstance(r.value, ast.Call) and isinstance(r.value.func, ast.Attribute) \
+                and r.value.func.attr == "__await__" and isinstance(r.value.func.value, ast.Call) \
+                and isinstance(r.value.func.value.func, ast.Attribute) and norm(r.value.func.value.func.value) == "self":
+            out["impl"] = info.methods.get(r.value.func.value.func.attr)
+    want = f"self.{F['instance']}.__dict__[self.{F['name']}]"
+    for m in info.methods.values():
+        if any(isinstance(x, ast.Subscript) and isinstance(x.ctx, ast.Load) and norm(x) == want for x in own_nodes(m.node)):
+            out["slot_read"] = m
+    if out.get("impl") is None or out.get("slot_read") is None:
+        raise AnalysisError(f"{PLACEHOLDER}: cannot identify the await implementation / the slot read (anchor moved)")
+    out["slot_name"] = out["slot_read"].qualname.rsplit(".", 1)[-1]
+    info.__dict__["_asl_roles"] = out
+    return out
+
+
+_SLOT = {"name": "_instance_value"}
+
+
 def _is_slot_test(n: Node, cfg=None) -> bool:
     """branch on `<slot read> is self` (or `self is <slot read>`)."""
     if n.kind != "branch" or not isinstance(n.ast, ast.Compare) or len(n.ast.ops) != 1:
@@ -93,13 +123,13 @@ def _is_slot_test(n: Node, cfg=None) -> bool:
     if not has_self or len(other) != 1:
         return False
     text = norm(other[0])
-    if "_instance_value" in text or "__dict__" in text:
+    if f".{_SLOT['name']}" in text or "__dict__" in text:
         return True
     if isinstance(other[0], ast.Name) and cfg is not None:
         from asl.flow import reaching
         defs = reaching(cfg).defs_at(n, other[0].id)
         vals = [norm(d.info.get("value")) for d in defs if d.kind == "store"]
-        return bool(vals) and all("_instance_value" in v or "__dict__" in v for v in vals)
+        return bool(vals) and all(f".{_SLOT['name']}" in v or "__dict__" in v for v in vals)
     return False
 
 
@@ -108,13 +138,24 @@ def _held_edge(n: Node) -> str:
     return "t" if isinstance(n.ast.ops[0], ast.Is) else "f"  # type: ignore[union-attr]
 
 
+def _impl_view(ctx, info):
+    """The await implementation with its private helper coroutines inlined (the computation
+    may or may not sit in a helper of its own)."""
+    R = roles(ctx, info)
+    _SLOT["name"] = R["slot_name"]
+    return ctx.inlined(R["impl"], keep=(R["slot_name"],))
+
+
+def _getter_awaits(ctx, u, main, F):
+    return [n for n in main if n.kind == "await" and norm(n.info.get("value")) == f"self.{F['func']}(self.{F['instance']})"]
+
+
 def r12_1(ctx, info) -> None:
     F = placeholder_fields(info)
-    u = info.methods["_await_impl"]
+    u = _impl_view(ctx, info)
     cfg = cfg_of(u)
     main = [n for n in cfg.nodes if not n.tag]
-    getters = [n for n in main if n.kind == "await" and any(
-        a[0] == "libcoro" and a[1].endswith("._get_attribute") for a in ctx.vals.expr(u, n.info.get("value"), n))]
+    getters = _getter_awaits(ctx, u, main, F)
     enters = [n for n in main if n.kind == "enter" and norm(n.info.get("cm")) == f"self.{F['lock']}"]
     tests = [n for n in main if _is_slot_test(n, cfg)]
     ctx.count("slot_tests", len(tests))
@@ -159,21 +200,21 @@ def r12_1(ctx, info) -> None:
         from asl.flow import reaching
         defs = reaching(cfg).defs_at(n, name)
         vals = {norm(d.info.get("value")) for d in defs if d.kind == "store"}
-        ctx.check(bool(vals) and all("_instance_value" in v for v in vals), "R12.1", u, n,
+        ctx.check(bool(vals) and all(f".{_SLOT['name']}" in v for v in vals), "R12.1", u, n,
                   "the awaited object is the one read from the instance slot", node=n, witness=str(sorted(vals)))
 
 
 def r12_2(ctx, info) -> None:
     F = placeholder_fields(info)
-    u = info.methods["_get_attribute"]
+    u = _impl_view(ctx, info)
     cfg = cfg_of(u)
     main = [n for n in cfg.nodes if not n.tag]
-    awaits = [n for n in main if n.kind == "await"]
+    awaits = _getter_awaits(ctx, u, main, F)
     stores = [n for n in main if n.kind == "store" and any(
         isinstance(t, ast.Subscript) and "__dict__" in norm(t.value) for t in n.info.get("targets", []))]
-    ctx.check(len(awaits) == 1, "R12.2", u, awaits[1] if len(awaits) > 1 else "_get_attribute",
-              "the getter is awaited exactly once and nothing else suspends")
-    ctx.check(len(stores) >= 1, "R12.2", u, "_get_attribute", "the finished value is stored in the instance dict")
+    ctx.check(len(awaits) == 1, "R12.2", u, awaits[1] if len(awaits) > 1 else "the computation",
+              "the getter is awaited at exactly one place")
+    ctx.check(len(stores) >= 1, "R12.2", u, "the computation", "the finished value is stored in the instance dict")
     if not awaits or not stores:
         return
     a = awaits[0]
@@ -200,7 +241,8 @@ def r12_2(ctx, info) -> None:
         ctx.check(wrapped, "R12.2", u, s, "the published object is a non-suspending wrapper of the value", node=s)
         if wrapped:
             vname = val.args[0].id  # type: ignore[union-attr]
-            rets = [n for n in main if n.kind == "return"]
+            after = reachable([x for (lab, x) in s.succ if lab == "n"], edge_ok=lambda p, lab, b: lab not in ("e", "p"))
+            rets = [n for n in main if n.kind == "return" and n in after]
             same = all(isinstance(r.info.get("value"), ast.Name) and r.info["value"].id == vname for r in rets) and rets
             from asl.flow import reaching
             defs = reaching(cfg).defs_at(s, vname)
@@ -293,7 +335,7 @@ def r12_4(ctx, info) -> None:
 
 
 def r12_5(ctx, info) -> None:
-    u = info.methods["_instance_value"]
+    u = roles(ctx, info)["slot_read"]
     cfg = cfg_of(u)
     handlers = [n for n in cfg.nodes if n.kind == "handler" and "KeyError" in norm(n.info.get("type"))]
     ctx.check(bool(handlers), "R12.5", u, "_instance_value", "a deleted slot is detected (KeyError on the instance dict)")
@@ -315,7 +357,8 @@ def r12_7(ctx, info) -> None:
     ctx.rule("R12.7", "the placeholder keeps no second copy of the value; every await goes through the instance slot")
     aw = info.methods["__await__"]
     rets = [n for n in own_nodes(aw.node) if isinstance(n, ast.Return)]
-    ok = len(rets) == 1 and norm(rets[0].value) == "self._await_impl().__await__()" and \
+    impl_name = roles(ctx, info)["impl"].qualname.rsplit(".", 1)[-1]
+    ok = len(rets) == 1 and norm(rets[0].value) == f"self.{impl_name}().__await__()" and \
         not any(isinstance(n, (ast.If, ast.IfExp, ast.Try)) for n in own_nodes(aw.node))
     ctx.check(ok, "R12.7", aw, rets[0] if rets else "__await__",
               "every await of the placeholder re-reads the instance slot (so a deleted or replaced value is never "
